@@ -203,6 +203,23 @@ def replay(case):
                     out.append(('power:rayleigh:%s' % kind, 'reported eigenvalue %r is not the Rayleigh quotient %r of the returned tensor' % (lam, r)))
                 elif abs(lam - w[j]) > 1e-6 * scale:
                     out.append(('power:converge:%s' % kind, 'eigenvalue %r, nearest to sigma=%r is %r' % (lam, sigma, w[j])))
+        # ---- a real symmetric operator stored with mixed dtypes: core 1 times i, core 2 times -i (exact; the product is the
+        # same operator, its first core is real, the later ones complex) - the shifted operator A - sigma*I built inside the
+        # inverse iteration must keep the complex cores
+        if cfg['r0'] == case['maxranks'] and N >= 2 and not cplx and len(dims) >= 3 and B is None:
+            Amix = A.copy()
+            Amix.cores[1] = Amix.cores[1] * 1j
+            Amix.cores[2] = Amix.cores[2] * (-1j)
+            for j in sorted({0, N - 1}):
+                nb = min(abs(w[j] - w[k]) for k in range(N) if k != j)
+                if nb < 1e-3 * width:
+                    continue
+                sigma = w[j] + 0.15 * nb
+                lam, t = evp.power_method(Amix, xfull, repeats=25, sigma=sigma)
+                pm = metadata_problem(t)
+                if pm or abs(lam - w[j]) > 1e-6 * scale:
+                    out.append(('power:mixed-dtype', pm or 'operator with a real first core and complex later cores (the same real symmetric '
+                                'operator): eigenvalue %r, nearest to sigma=%r is %r (dims %r)' % (lam, sigma, w[j], dims)))
     except Exception as e:
         import traceback
         out.append(('exception:%s:%s' % (type(e).__name__, kind), '%r (dims %r r0 %r) %s' % (e, dims, cfg['r0'], traceback.format_exc()[-300:])))
